@@ -8,12 +8,12 @@ ROOT = os.path.dirname(os.path.dirname(os.path.abspath(__file__)))
 CHECKS = {
  "C09": ("fault_enumeration",
          "runtime monitor: offline checker over the event log of a probe child maker (exactly-once serials, old-population address/fingerprint, live random words, snapshot equality on failure) under native stress with injected delays and fault enumeration over call indices; Miri (tree borrows, many seeds) on every run and ThreadSanitizer in the thorough tier for the unsafe lifetime extension and the rayon hand-off",
-         "Sizes {0,1,2,3,5,8,17,64,257,1000} x serial_next / par_next on rayon pools of 1,2,3,4,8,16 x delay {none, yield, spin, sleep} x failure injected at every call index (sizes <= 17; sampled positions and multi-failure sets beyond) x Vec / VecDeque / set-like (BTreeSet of keyed children that collapse) populations over 2-3 consecutive generations (a panicking step is a violation) (1.8e3 configurations, x6 repetitions thorough); the evidence reports distinct interleaving signatures, overlap per pool size and is inconclusive for the schedule dimension if no two calls ever overlapped. Miri: 8 seeds of a 14-configuration workload (quick) / 32 seeds of a 96-configuration workload (thorough); TSan: 480 configurations (thorough).",
+         "Sizes {0,1,2,3,5,8,17,64,257,1000} x serial_next / par_next on rayon pools of 1,2,3,4,8,16 x delay {none, yield, spin, sleep} x failure injected at every call index (sizes <= 17; sampled positions and multi-failure sets beyond) x Vec / VecDeque / set-like (BTreeSet of keyed children that collapse) populations over 2-3 consecutive generations (a panicking step is a violation) (1.8e3 configurations, x6 repetitions thorough); the evidence reports distinct interleaving signatures, overlap per pool size and is inconclusive for the schedule dimension if no two calls ever overlapped. Miri: 8 seeds of a 14-configuration workload (quick) / 32 seeds of a 96-configuration workload (thorough); TSan: 480 configurations (thorough). Child makers that re-enter the rayon pool; stall detector for deadlocks (a step in progress, no step event and < 1 CPU-second in 120 s).",
          "Schedules are sampled (stress, pool sizes, delays, Miri seeds, TSan), not enumerated. Stacked Borrows is not used (known crossbeam-epoch false positive); Tree Borrows is.",
          "DESIGN.md §4 C09, §5"),
  "C15": ("exploration",
          "runtime monitor: order-law checker exhaustive over a boundary value pool (pairs and triples) + sum/sequence invariants on random result vectors + recording scorer with serial-numbered genomes",
-         "Score/Error/TestResult: reflexivity, antisymmetry, transitivity, agreement of cmp/partial_cmp/<,<=,>,>=,==,!=,max,min over all pairs and triples of a 10-value pool of i64 extremes and repeats, Score ascending, Error reversed, Score-vs-Error incomparable both ways; TestResults/EcIndividual: 2e6 (quick) / 4e7 (thorough) random vector pairs for total = sum, order kept, comparison delegation (From<IntoIterator> and FromIterator; i128 variant; every 400th vector has 9..100003 results with lengths around powers of two); individuals and result collections over partially ordered results (TestResult<f64,f64> score-vs-error, NaN, plain f64; alone and nested) agree with the results' own partial order through every operator; IndividualGenerator / WithScorer / GenomeScorer: genome identity, scorer called exactly once with that genome, maker failure passes through.",
+         "Score/Error/TestResult: reflexivity, antisymmetry, transitivity, agreement of cmp/partial_cmp/<,<=,>,>=,==,!=,max,min over all pairs and triples of a 10-value pool of i64 extremes and repeats, Score ascending, Error reversed, Score-vs-Error incomparable both ways; TestResults/EcIndividual: 2e6 (quick) / 4e7 (thorough) random vector pairs for total = sum, order kept, comparison delegation (From<IntoIterator> and FromIterator; i128 variant; every 400th vector has 9..100003 results with lengths around powers of two); individuals and result collections over partially ordered results (TestResult<f64,f64> score-vs-error, NaN, plain f64; alone and nested) agree with the results' own partial order through every operator; IndividualGenerator / WithScorer / GenomeScorer: genome identity, scorer called exactly once with that genome, maker failure passes through. Collections from iterators with astronomic or empty size hints.",
          "== of TestResults / EcIndividual is not required to agree with cmp; sums are kept in range.",
          "DESIGN.md §4 C15"),
  "C16": ("exploration",
@@ -28,12 +28,12 @@ CHECKS = {
          "DESIGN.md §4 C17"),
  "C18": ("exploration",
          "runtime monitor: counting element generator (serial-set membership, exact sizes) for collection generators; identity/serial membership + Bernstein uniformity + num_choices for 19 choice-construction flavours; 16 empty-collection constructions must be rejected at construction",
-         "Collection sizes 0..130, both sides of multiples of 64 up to 4097, 10^4, 65536, 65537 over Vec (three construction paths, repeated sampling), Bitstring (incl. random / random_with_probability), Plushy and scored populations; choices built from collections of size 1..8, 13, 64, 100, 257, 1000 (and 3*2^22 for index residues) with duplicate values at distinct positions, 2e6 (quick) / 4e7 (thorough) draws per (flavour, size). The public size / element-generator fields of a collection generator are reassigned after sampling and the next collection must follow them. Every position of 256 random bitstrings (sizes around word boundaries up to 4097) shows both values.",
+         "Collection sizes 0..130, both sides of multiples of 64 up to 4097, 10^4, 65536, 65537 over Vec (three construction paths, repeated sampling), Bitstring (incl. random / random_with_probability), Plushy and scored populations; choices built from collections of size 1..8, 13, 64, 100, 257, 1000 (and 3*2^22 for index residues) with duplicate values at distinct positions, 2e6 (quick) / 4e7 (thorough) draws per (flavour, size). The public size / element-generator fields of a collection generator are reassigned after sampling and the next collection must follow them. Every position of 256 random bitstrings (sizes around word boundaries up to 4097) shows both values. Collections of zero-sized elements.",
          "Order inside a generated collection and over-draw from the element generator are recorded, not judged.",
          "DESIGN.md §4 C18"),
  "C06": ("exploration",
          "runtime monitor: identity invariant (ptr::eq against the population's own elements) + documented-error table per configuration + panic capture, through every access path (direct, &S, Select operator, &dyn, Box<dyn>) and 13 weighted nestings with run-time chosen members",
-         "2e5 (quick) / 3e6 (thorough) random populations of size 0..9 (empty, singleton, all-equal, duplicate-laden, uneven result counts) x Best, Worst, Random, Tournament(k=1..n+2), Lexicase(cases 0..m+2, both polarities) x five access paths, every 4th round the same contract on VecDeque / LinkedList / BTreeSet / Box<[T]> / [T; N] populations, every 16th dynamic lists with usize weights whose total exceeds usize::MAX, every 40th round a large population (10..4099 members, tournament sizes around 8/16/32/64, sqrt(n), n/2, n-1, n, n+1, up to 34 cases), plus six random weighted combinations per population with weights incl. 0: Ok must be that very element, Err must be the documented error for that configuration (and must occur where documented), exactly one positive-weight member is used per selection. Dynamic weighted lists are also used while being built (selections, failing ones included, between extensions; judged against the weights at that moment).",
+         "2e5 (quick) / 3e6 (thorough) random populations of size 0..9 (empty, singleton, all-equal, duplicate-laden, uneven result counts) x Best, Worst, Random, Tournament(k=1..n+2), Lexicase(cases 0..m+2, both polarities) x five access paths, every 4th round the same contract on VecDeque / LinkedList / BTreeSet / Box<[T]> / [T; N] populations, every 16th dynamic lists with usize weights whose total exceeds usize::MAX, every 40th round a large population (10..4099 members, tournament sizes around 8/16/32/64, sqrt(n), n/2, n-1, n, n+1, up to 34 cases), plus six random weighted combinations per population with weights incl. 0: Ok must be that very element, Err must be the documented error for that configuration (and must occur where documented), exactly one positive-weight member is used per selection. Dynamic weighted lists are also used while being built (selections, failing ones included, between extensions; judged against the weights at that moment). Plain-value populations with many ties under every tournament size.",
          "Documented errors are recognised by their type names in the Debug rendering of nested error types.",
          "DESIGN.md §4 C06"),
  "C07": ("exploration",
@@ -43,22 +43,22 @@ CHECKS = {
          "DESIGN.md §4 C07"),
  "C08": ("exploration",
          "runtime statistical monitor: exact lexicase law by enumerating all case permutations (<= 6 cases) and by an independent memoised recursion (up to 14 cases), cross-checked against each other; per-draw support and non-domination checks; Bernstein intervals on selection frequencies",
-         "12 hand-built matrices where case order matters + 300 (quick) / 1000 (thorough) random matrices (<=6 individuals x <=5 cases) + 50 / 166 larger ones (2..55 individuals x 7..14 cases), score and error polarity, configured case counts <= available, 1e6 / 1e7 draws each.",
+         "12 hand-built matrices where case order matters + 300 (quick) / 1000 (thorough) random matrices (<=6 individuals x <=5 cases) + 50 / 166 larger ones (2..55 individuals x 7..14 cases), score and error polarity, configured case counts <= available, 1e6 / 1e7 draws each. 1000 / 50000 / 300000 cases over tied individuals.",
          "The law is computed by a 20-line enumerator and a 30-line recursion, both written from the statement; decided up to the stated resolution.",
          "DESIGN.md §4 C08"),
  "C10": ("exploration",
          "runtime monitor: tagged / complementary parents make the origin of every child gene readable; segment and mask coverage; exhaustive argument sweep of the exchange primitives with panic capture",
-         "TwoPointXo/UniformXo x four genome flavours x lengths {0..9,15..17,31..33,63..65,127..129,257,1000}, 5e5 (quick) / 1e7 (thorough) draws each (scaled down with the length): length, position-wise origin, one contiguous segment, every segment incl. both ends occurs (len<=6), the classes left-end / right-end / whole / inside occur on longer genomes when >= 600 such draws are expected, every uniform mask occurs; all ordered pairs of different lengths on all eight flavours must give DifferentGenomeLength(l1,l2); crossover_gene/crossover_segment for every index/range on genomes of length 0..4 (equal and different lengths): exact swap or error, never a panic, nothing else touched. Reversed ranges must not panic or modify either genome.",
+         "TwoPointXo/UniformXo x four genome flavours x lengths {0..9,15..17,31..33,63..65,127..129,257,1000}, 5e5 (quick) / 1e7 (thorough) draws each (scaled down with the length): length, position-wise origin, one contiguous segment, every segment incl. both ends occurs (len<=6), the classes left-end / right-end / whole / inside occur on longer genomes when >= 600 such draws are expected, every uniform mask occurs; all ordered pairs of different lengths on all eight flavours must give DifferentGenomeLength(l1,l2); crossover_gene/crossover_segment for every index/range on genomes of length 0..4 (equal and different lengths): exact swap or error, never a panic, nothing else touched. Reversed ranges must not panic or modify either genome. Segment ranges up to usize::MAX must be refused as errors.",
          "Reversed and empty out-of-bounds ranges are exercised but not judged; the empty exchange is recorded, not demanded; empty ranges beyond the end of a genome must be errors.",
          "DESIGN.md §4 C10"),
  "C11": ("exploration",
          "runtime monitor: structural invariants on tagged genomes (parent genes carry positions, fresh genes carry serial numbers handed out by a counting generator), exact degenerate-rate cases",
-         "2e6 (quick) / 4e7 (thorough) UMAD mutations through all three constructors on Vector<tagged gene> and Plushy (parents with up to four Close genes, every assignment tried), lengths 0..40 (every 60th genome 63..4097; bit-flip also on 2^24+1 and 2^24+3 genes), rate grid incl. 0 and 1 and random rates; 5e5 / 1e7 bit-flip mutations (WithRate, WithOneOverLength) on Vec<bool>, Bitstring and a custom Not gene.",
+         "2e6 (quick) / 4e7 (thorough) UMAD mutations through all three constructors on Vector<tagged gene> and Plushy (parents with up to four Close genes, every assignment tried), lengths 0..40 (every 60th genome 63..4097; bit-flip also on 2^24+1 and 2^24+3 genes), rate grid incl. 0 and 1 and random rates; 5e5 / 1e7 bit-flip mutations (WithRate, WithOneOverLength) on Vec<bool>, Bitstring and a custom Not gene. UMAD on a million-gene parent at the extreme rates.",
          "Set membership of serial numbers decides 'drawn from the supplied generator during this call, at most once'.",
          "DESIGN.md §4 C11"),
  "C12": ("exploration",
          "runtime statistical monitor (Bernstein 1e-10 per category; p=0/p=1 exact; Hoeffding for mean child length) over 285 configurations of rates, lengths and generators",
-         "Per-gene flip frequency and adjacent-pair joint frequency for WithRate / WithOneOverLength; UMAD (through all three constructors, the empty-genome rate set far from both other rates) per-position deletion, aggregated additions a(1-d), the full joint law on one-gene parents, empty-parent additions for all three constructors, mean child length incl. d=a/(1+a); uniform crossover 1/2 and pair independence on four flavours; Bitstring::random*, BoolGenerator; GeneGenerator through all six public constructors: close frequency (explicit and default 1/(n+1), n=1..31) and instruction frequencies (uniform and skewed, direct and via a Plushy collection generator); lengths 100/200/1000 for bit-flip, random bitstrings and uniform crossover; the 1/length rate also on 3000..70000 genes (aggregated). 2e6 (quick) / 4e7 (thorough) samples per configuration before length scaling. BoolGenerator is also reconfigured through its public probability field after construction and after a draw. Default close probability also on instruction sets of 200000 and 2^20-1 instructions. Flip rates down to 2^-25, 1e-20 and f32::MIN_POSITIVE.",
+         "Per-gene flip frequency and adjacent-pair joint frequency for WithRate / WithOneOverLength; UMAD (through all three constructors, the empty-genome rate set far from both other rates) per-position deletion, aggregated additions a(1-d), the full joint law on one-gene parents, empty-parent additions for all three constructors, mean child length incl. d=a/(1+a); uniform crossover 1/2 and pair independence on four flavours; Bitstring::random*, BoolGenerator; GeneGenerator through all six public constructors: close frequency (explicit and default 1/(n+1), n=1..31) and instruction frequencies (uniform and skewed, direct and via a Plushy collection generator); lengths 100/200/1000 for bit-flip, random bitstrings and uniform crossover; the 1/length rate also on 3000..70000 genes (aggregated). 2e6 (quick) / 4e7 (thorough) samples per configuration before length scaling. BoolGenerator is also reconfigured through its public probability field after construction and after a draw. Default close probability also on instruction sets of 200000 and 2^20-1 instructions. Flip rates down to 2^-25, 1e-20 and f32::MIN_POSITIVE. WithRate on 4-6 million genes (aggregated).",
          "A bias below the stated resolution is invisible.",
          "DESIGN.md §4 C12"),
  "C13": ("exploration",
@@ -68,7 +68,7 @@ CHECKS = {
          "DESIGN.md §4 C13"),
  "C14": ("fault_enumeration",
          "runtime monitor: combinator-algebra reference evaluator vs the real combinators on random composition terms; leaf probes log (id, input, random word drawn through next_u32 / next_u64 / fill_bytes in turn); failure injected at every leaf call; error path read through Error::source() and Display",
-         "3e5 (quick) / 5e6 (thorough) random terms to depth 5 over then/and/map(pair|array|vec)/apply_n_times<0..3,5,8,17,33>/Identity/Constant on inputs incl. vectors of up to 100 elements, each with m <= 130 leaf calls run m+1 times (failure at each call and none): output, full call log (order, inputs, words), stream fingerprint, failing leaf and error path must match; six statically typed shapes; wrappers Select/Mutate/Recombine (by value/by reference), GenomeExtractor, GenomeScorer, Identity, Constant compared with the wrapped thing. All reference forms of the forwarding impls (&M, &&M, &mut M, &R, &&R, &S, &&S and the wrappers around them) are compared with the direct call.",
+         "3e5 (quick) / 5e6 (thorough) random terms to depth 5 over then/and/map(pair|array|vec)/apply_n_times<0..3,5,8,17,33>/Identity/Constant on inputs incl. vectors of up to 100 elements, each with m <= 130 leaf calls run m+1 times (failure at each call and none): output, full call log (order, inputs, words), stream fingerprint, failing leaf and error path must match; six statically typed shapes; wrappers Select/Mutate/Recombine (by value/by reference), GenomeExtractor, GenomeScorer, Identity, Constant compared with the wrapped thing. All reference forms of the forwarding impls (&M, &&M, &mut M, &R, &&R, &S, &&S and the wrappers around them) are compared with the direct call. map / then_map over vectors of up to a million elements with and without a failing element.",
          "Combinator error types are unnameable outside ec-core, so the failing part is read from the documented Display texts; an unrecognised text is inconclusive.",
          "DESIGN.md §4 C14"),
  "C05": ("exploration",
@@ -78,7 +78,7 @@ CHECKS = {
          "DESIGN.md §4 C05"),
  "C19": ("exploration",
          "runtime monitor over generated code: a reference type-state automaton produces random legal builder call sequences that are compiled and run (built state vs automaton record) for PushState and five fixture structs (incl. unusual field order and options split over several attributes); every call sequence up to a length bound is type-checked by one `cargo check --message-format=json` and rustc's accept/reject verdict per function is compared with what the statement requires",
-         "Run time: 400 (quick) / 3000 (thorough) random legal sequences incl. overflowing value lists, plus all declaration orders of up to 5 inputs, program order observed by running, an overflow boundary grid (capacity 0..5 x length 0..7 on every stack incl. the second values call), accessor consistency. Compile time: all sequences of up to 3 (quick) / 4 (thorough) calls + build() over a reduced alphabet for 5 structs (2.7e3 / 2.3e4 functions): must-compile sequences must be accepted, statement-named misuse (incomplete build, size change after data) must be rejected, everything else is recorded. Exact-size iterators announcing up to usize::MAX values onto empty / loaded, bounded / unbounded stacks must be reported as Overflow. Sizes 0, 1, around 2^32 / 2^63 and usize::MAX, set globally / individually / last-set-wins.",
+         "Run time: 400 (quick) / 3000 (thorough) random legal sequences incl. overflowing value lists, plus all declaration orders of up to 5 inputs, program order observed by running, an overflow boundary grid (capacity 0..5 x length 0..7 on every stack incl. the second values call), accessor consistency. Compile time: all sequences of up to 3 (quick) / 4 (thorough) calls + build() over a reduced alphabet for 5 structs (2.7e3 / 2.3e4 functions): must-compile sequences must be accepted, statement-named misuse (incomplete build, size change after data) must be rejected, everything else is recorded. Exact-size iterators announcing up to usize::MAX values onto empty / loaded, bounded / unbounded stacks must be reported as Overflow. Sizes 0, 1, around 2^32 / 2^63 and usize::MAX, set globally / individually / last-set-wins. The overflow error of an over-long program is the same whichever item type it is supplied as.",
          "The compile-time clause is decided by observing rustc, flagged as such in DESIGN.md; fixtures with >=2 stacks use !has_stack (generated HasStack impls fail coherence outside the push crate).",
          "DESIGN.md §4 C19"),
  "C01": ("exploration",
